@@ -389,22 +389,23 @@ def _objarr(xs):
     return a
 
 
-def frame_obligations(chk, C, layout):
+def frame_obligations(chk, C, layout, shared_msg=False):
     """layout: {kernel: [codes]} ; counts and the two sample sizes are symbolic; z3 proves every cell of Summary._error_df(per_chain=True)"""
     from liesel.goose.summary_m import ErrorSummaryForOneCode, Summary
     tot = {(k, c, ch): z3.Int(f"tot_{k}_{c}_{ch}") for k, cs in layout.items() for c in cs for ch in range(C)}
     post = {(k, c, ch): z3.Int(f"post_{k}_{c}_{ch}") for k, cs in layout.items() for c in cs for ch in range(C)}
     wsz, psz = z3.Int("warmup_size"), z3.Int("posterior_size")
-    es = {k: {c: ErrorSummaryForOneCode(c, f"{k} msg {c}", _objarr([S(tot[k, c, ch]) for ch in range(C)]), _objarr([S(post[k, c, ch]) for ch in range(C)])) for c in cs} for k, cs in layout.items()}
+    msg = (lambda k, c: f"msg {c}") if shared_msg else (lambda k, c: f"{k} msg {c}")
+    es = {k: {c: ErrorSummaryForOneCode(c, msg(k, c), _objarr([S(tot[k, c, ch]) for ch in range(C)]), _objarr([S(post[k, c, ch]) for ch in range(C)])) for c in cs} for k, cs in layout.items()}
     sm = object.__new__(Summary)
     sm.error_summary = es
     sm.sample_info = dict(num_chains=C, sample_size_per_chain=S(psz), warmup_size_per_chain=S(wsz))
-    name = f"Summary._error_df(per_chain=True), {C} chains, kernels/codes {layout}"
+    name = f"Summary._error_df(per_chain=True), {C} chains, kernels/codes {layout}" + (" (kernels of one class: same message for the same code)" if shared_msg else "")
 
     class _Ob:
         pass
     _Ob.name = f"{name}: one row per kernel x code x phase x chain; count = total - posterior (warmup) or posterior; relative = count / that phase's sample size -- for all counts and sizes"
-    _Ob.signature = f"frame:{C}:{sorted(layout)}"
+    _Ob.signature = f"frame:{C}:{sorted(layout)}" + (":shared" if shared_msg else "")
     t0 = time.time()
     df = chk.guarded(_Ob.signature, name, lambda: sm._error_df(per_chain=True))
     if df is None:
@@ -414,8 +415,8 @@ def frame_obligations(chk, C, layout):
     for k, cs in layout.items():
         for c in cs:
             for ch in range(C):
-                want[(k, c, f"{k} msg {c}", "warmup", ch)] = (tot[k, c, ch] - post[k, c, ch], z3.ToReal(tot[k, c, ch] - post[k, c, ch]) / z3.ToReal(wsz))
-                want[(k, c, f"{k} msg {c}", "posterior", ch)] = (post[k, c, ch], z3.ToReal(post[k, c, ch]) / z3.ToReal(psz))
+                want[(k, c, msg(k, c), "warmup", ch)] = (tot[k, c, ch] - post[k, c, ch], z3.ToReal(tot[k, c, ch] - post[k, c, ch]) / z3.ToReal(wsz))
+                want[(k, c, msg(k, c), "posterior", ch)] = (post[k, c, ch], z3.ToReal(post[k, c, ch]) / z3.ToReal(psz))
     problems = []
     if set(rows) != set(want):
         problems.append(f"rows {sorted(map(str, set(rows) ^ set(want)))[:4]} missing or unexpected")
@@ -448,7 +449,7 @@ def frame_obligations(chk, C, layout):
         if m is not None:
             vals[key] = (int(str(m.eval(tot[key], model_completion=True))), int(str(m.eval(post[key], model_completion=True))))
     w_, p_ = (int(str(m.eval(wsz, model_completion=True))), int(str(m.eval(psz, model_completion=True)))) if m is not None else (20, 10)
-    es2 = {k: {c: ErrorSummaryForOneCode(c, f"{k} msg {c}", np.array([vals[k, c, ch][0] for ch in range(C)]), np.array([vals[k, c, ch][1] for ch in range(C)])) for c in cs} for k, cs in layout.items()}
+    es2 = {k: {c: ErrorSummaryForOneCode(c, msg(k, c), np.array([vals[k, c, ch][0] for ch in range(C)]), np.array([vals[k, c, ch][1] for ch in range(C)])) for c in cs} for k, cs in layout.items()}
     sm2 = object.__new__(Summary)
     sm2.error_summary, sm2.sample_info = es2, dict(num_chains=C, sample_size_per_chain=p_, warmup_size_per_chain=w_)
     diffs = []
@@ -460,7 +461,7 @@ def frame_obligations(chk, C, layout):
                 for ch in range(C):
                     t_, po = vals[k, c, ch]
                     for ph, cnt, sz in (("warmup", t_ - po, w_), ("posterior", po, p_)):
-                        g = got.get((k, c, f"{k} msg {c}", ph, ch))
+                        g = got.get((k, c, msg(k, c), ph, ch))
                         if g is None or g[0] != cnt or abs(g[1] - cnt / sz) > 1e-9:
                             diffs.append(f"row {(k, c, ph, ch)}: table has {g}, stored count {cnt} of {sz}")
     except Exception as ex:
@@ -651,6 +652,7 @@ def main():
     if not only or (only.startswith("frame") and only != "frame-aggregated"):
         frame_obligations(chk, 2, {"k0": [1, 3], "k1": [2]})
         frame_obligations(chk, 1, {"kz": [90]})
+        frame_obligations(chk, 2, {"ka": [1, 90], "kb": [1], "kc": [90]}, shared_msg=True)
         if chk.tier == "thorough":
             frame_obligations(chk, 3, {"a": [1], "b": [1, 2, 90]})
     if not only or only in ("frame-aggregated", "roundtrip"):
